@@ -228,14 +228,24 @@ def no_inplace_update_of_borrowed_arrays(qualname):
     out = []
     borrowed = {}  # container name -> list of (line, source container)
     fresh_calls = ("copy", "zeros", "ones", "array", "empty", "full", "zeros_like", "ones_like", "dcp", "deepcopy")
+    # local names that are (on some path) only another name for an array held by an object: `vals = comp.vals`
+    alias = {}
+    for s in ast.walk(fi.node):
+        if isinstance(s, ast.Assign) and len(s.targets) == 1 and isinstance(s.targets[0], ast.Name) and isinstance(s.value, ast.Attribute):
+            alias.setdefault(s.targets[0].id, []).append((s.lineno, ast.unparse(s.value)))
     for s in ast.walk(fi.node):
         if isinstance(s, ast.Assign) and len(s.targets) == 1 and isinstance(s.targets[0], ast.Subscript) and isinstance(s.targets[0].value, ast.Name):
             v = s.value
-            # (a bare local name is a hand-over of a freshly built array; an element of another container stays shared)
+            # (a bare local name is a hand-over of a freshly built array -- unless that name is itself an alias of an attribute;
+            # an element of another container stays shared)
             is_borrow = isinstance(v, ast.Subscript) and isinstance(v.value, ast.Name)
             if is_borrow:
                 src = v.value.id
                 borrowed.setdefault(s.targets[0].value.id, []).append((s.lineno, src))
+            elif isinstance(v, ast.Name) and v.id in alias:
+                borrowed.setdefault(s.targets[0].value.id, []).append((s.lineno, alias[v.id][0][1]))
+            elif isinstance(v, ast.Attribute):
+                borrowed.setdefault(s.targets[0].value.id, []).append((s.lineno, ast.unparse(v)))
     n = 0
     for s in ast.walk(fi.node):
         if isinstance(s, ast.AugAssign) and isinstance(s.target, ast.Subscript) and isinstance(s.target.value, ast.Name):
@@ -522,3 +532,17 @@ def dependency_edges(qualname, expected_edges, order_assignments):
         ok = len(rhs) == 1 and "topological_sort(G)" in rhs[0]
         out.append(_ob(qualname, "order-is-a-topological-sort:%s" % key, ok, fi.lineno, "exec_order['%s'] = %s" % (key, rhs)))
     return out
+
+
+def no_return_inside_loops(qualname):
+    """the function's result is returned after its loops have run to completion: no `return` statement inside a for / while body
+    (a function that accumulates over all items -- e.g. a penalty over all constrained years -- must not leave after the first one)"""
+    fi = source.lookup(qualname)
+    bad = []
+    for loop in ast.walk(fi.node):
+        if isinstance(loop, (ast.For, ast.While)):
+            for n in ast.walk(loop):
+                if isinstance(n, ast.Return):
+                    bad.append(n.lineno)
+    has_top = any(isinstance(s, ast.Return) for s in fi.body())
+    return [_ob(qualname, "returns-after-the-loop", not bad and has_top, bad[0] if bad else fi.lineno, "return statements inside loops at lines %s; top-level return present: %s" % (sorted(set(bad)), has_top))]
